@@ -57,6 +57,10 @@ pub struct SenderObs {
     pub prev: AckState,
     pub mss0: usize,
     pub peer_max_payload: usize,
+    /// (instant, payload length) of data packets received from the peer
+    pub peer_payloads: Vec<(u64, usize)>,
+    /// application writes: (instant, cumulative bytes accepted) — optional, see `on_tx_data`
+    pub writes: Vec<(u64, u64)>,
 }
 
 #[derive(Clone, Debug, PartialEq, Eq)]
@@ -68,7 +72,7 @@ pub enum TxKind {
 impl SenderObs {
     pub fn new(expected_first: u16, initial_wnd: u32, mss0: usize) -> Self {
         let st = AckState { cum: -1, sacked: BTreeSet::new(), wnd: initial_wnd, acked_bytes: 0, poss_recovery: false, poss_loss_event: false, sack_streak: 0, recovery_point: -1, dup_count: 0, last_pure: None, ever_sack: false, t_last_rx: 0, t_last_advance: 0, mss_now: mss0, n_rx: 0 };
-        SenderObs { first_seq: None, expected_first, segs: BTreeMap::new(), highest: -1, fin_rel: None, fin_times: vec![], prev: st.clone(), st, mss0, peer_max_payload: 0 }
+        SenderObs { first_seq: None, expected_first, segs: BTreeMap::new(), highest: -1, fin_rel: None, fin_times: vec![], prev: st.clone(), st, mss0, peer_max_payload: 0, peer_payloads: vec![], writes: vec![] }
     }
 
     /// unwrapped index of `seq` relative to the first data seq: resolved around the highest
@@ -102,14 +106,20 @@ impl SenderObs {
         // acknowledged segment the cut that was on the wire last at or before the instant of its ack (a probe that
         // expires at the very instant its ack arrives is re-cut first; the ack then covers the shorter cut), or
         // whatever larger size the peer itself sent
+        // Segments are cut ahead of their transmission, and whether one counts as a probe is decided when it is cut:
+        // the proven size is therefore taken at the earliest instant the segment can have been cut — when the
+        // application wrote the first of its bytes (if the caller supplied write times; else at transmission).
         let mss = if self.segs.get(&k).is_none_or(|g| g.lens.is_empty()) {
+            let offset: u64 = self.segs.range(..k).map(|(_, g)| *g.lens.first().unwrap_or(&0) as u64).sum();
+            let t_cut = self.writes.iter().find(|(_, cum)| *cum > offset).map(|(tw, _)| (*tw).min(t)).unwrap_or(t);
             let mut m = self.mss0;
             for g in self.segs.values() {
                 let Some(ta) = [g.cum_acked_at, g.sacked_at].into_iter().flatten().min() else { continue };
-                if ta > t { continue; }
+                if ta > t_cut { continue; }
                 if let Some(i) = g.times.iter().rposition(|x| *x <= ta) { m = m.max(g.lens[i]); }
             }
-            m.max(self.peer_max_payload)
+            let peer_max = self.peer_payloads.iter().filter(|(tp, _)| *tp <= t_cut).map(|(_, l)| *l).max().unwrap_or(0);
+            m.max(peer_max)
         } else { 0 };
         let g = self.segs.entry(k).or_default();
         if g.lens.is_empty() {
@@ -141,6 +151,7 @@ impl SenderObs {
         if p.ptype == refparse::ST_DATA {
             s.mss_now = s.mss_now.max(p.payload.len());
             self.peer_max_payload = self.peer_max_payload.max(p.payload.len());
+            self.peer_payloads.push((t, p.payload.len()));
         }
         // an ack beyond what was sent acknowledges everything sent so far *and* (this is what the
         // implementation does) segments that are queued but were never transmitted: their numbers
